@@ -82,6 +82,10 @@ impl CliCase {
     }
 }
 
+/// a file entry whose content starts with this marker is created as a symbolic link to the path that follows
+/// (relative to the link's directory); snapshots show links the same way
+pub const SYMLINK_MARK: &[u8] = b"\0SYMLINK:";
+
 #[derive(Clone, Debug, PartialEq, Eq)]
 pub struct FileState {
     pub bytes: Vec<u8>,
@@ -125,7 +129,13 @@ fn snapshot(root: &Path) -> Snapshot {
                 walk(root, &p, out);
             } else {
                 use std::os::unix::fs::MetadataExt;
-                let bytes = std::fs::read(&p).unwrap_or_default();
+                let bytes = if md.file_type().is_symlink() {
+                    let mut b = SYMLINK_MARK.to_vec();
+                    b.extend_from_slice(std::fs::read_link(&p).map(|t| t.to_string_lossy().to_string()).unwrap_or_default().as_bytes());
+                    b
+                } else {
+                    std::fs::read(&p).unwrap_or_default()
+                };
                 let mtime_ns = md.modified().ok().and_then(|t| t.duration_since(SystemTime::UNIX_EPOCH).ok()).map_or(0, |d| d.as_nanos());
                 out.insert(rel, FileState { bytes, mtime_ns, ino: md.ino() });
             }
@@ -151,6 +161,10 @@ pub fn run_cli(case: &CliCase) -> Result<CliRun, String> {
             let p = root.join(name);
             if let Some(parent) = p.parent() {
                 std::fs::create_dir_all(parent).map_err(|e| format!("mkdir: {e}"))?;
+            }
+            if let Some(target) = bytes.strip_prefix(SYMLINK_MARK) {
+                std::os::unix::fs::symlink(String::from_utf8_lossy(target).to_string(), &p).map_err(|e| format!("symlink {name}: {e}"))?;
+                continue;
             }
             let mut f = std::fs::File::create(&p).map_err(|e| format!("create {name}: {e}"))?;
             f.write_all(bytes).map_err(|e| format!("write {name}: {e}"))?;
